@@ -46,7 +46,7 @@ def jobs(tier):
     reps = ["a", "Z", "7", "_", "-", " ", "\\", ".", "[", "]", "{", "}", "#", "=", "+", "\t", "\x80", "\xff"]
     codes = [ord("a"), ord("Z"), ord("7"), ord("_"), ord("-"), ord(" "), ord("\\"), ord("."), ord("["), ord("]"),
              ord("{"), ord("}"), ord("#"), ord("="), ord("+"), 9, -128, -1]
-    for n in ():   # quote_key vs scan(): heap-string symex does not finish in 300 s; not covered (DESIGN 8.5)
+    for n in ((1, 2) if tier == "quick" else (1, 2, 3)):
         combos = list(itertools.product(range(len(codes)), repeat=n))
         if tier == "quick" and n == 2:
             combos = [c for c in combos if c[0] in (0, 2, 5, 6, 7, 16) or c[1] in (5, 6)]
@@ -59,6 +59,15 @@ def jobs(tier):
                            functions=["vnaproperty_quote_key", "scan"],
                            bound="key bytes %s (one representative per character class of the scanner)" % (c,),
                            timeout=300))
+    if tier != "quick":   # every one-byte key (a fully symbolic byte runs the SAT back end out of memory: DESIGN 8.5)
+        have = {j.name for j in J}
+        for b in range(1, 256):
+            nm = "quote_key.%02x" % b
+            if nm in have:
+                continue
+            J.append(V.Job(nm, H, "h_quote_key", [], defines=["-DKEY_LEN=1", "-DKEY_BYTES=%d" % (b if b < 128 else b - 256)],
+                           unwind=16, shim=False, kind="bounded", canary=False,
+                           functions=["vnaproperty_quote_key", "scan"], bound="the one-byte key 0x%02x" % b, timeout=300))
     return J
 
 
@@ -85,7 +94,8 @@ def colliding_keys():
 
 
 ASSUME = [
-    "container layer only: the descriptor parser (parse, parse_and_descend) and vnacal_property_* wrappers work on vasprintf output and are not covered",
+    "container layer + vnaproperty_quote_key against the real scanner (one representative byte per scanner character class at each of 1-2 positions, 3 in thorough; every one-byte key in thorough); the descriptor parser (parse, parse_and_descend) and vnacal_property_* wrappers work on vasprintf output and are not covered",
+    "<ctype.h> classification by the C-locale table in stubs/verif_libc.c (glibc's __ctype_b_loc has no CBMC body)",
     "maps are explored by bounded histories from the empty map (not from an arbitrary well-formed map)",
     "strdup/strlen/strcmp/isalpha/isdigit: CBMC library models; malloc never fails here (C12)",
 ]
